@@ -217,8 +217,7 @@ class Gen:
             elif w < 0.92:
                 cmd = [style(b"punsubscribe")] + (r.sample(pats, 1) if r.random() < 0.8 else [])
             else:
-                yield "c.rawdrop %s" % conn
-                continue
+                continue          # (disconnects are the business of the other episodes: their effect is not instantaneous)
             if step == 0 or conn not in getattr(orc, "raw", {}):
                 cmd = [style(b"subscribe"), b"a"] if r.random() < 0.5 else [style(b"psubscribe"), b"a*"]   # enter subscriber mode first
             yield "c.rawhold %s 0 %s" % (conn, " ".join(hx(t) for t in cmd))
